@@ -207,6 +207,7 @@ def match_frames(world, frames):
         by_key.setdefault(c["key"], []).append(c)
     pairs = []
     unmatched = []
+    seen = {}
     for f in frames:
         fr = f["fr"]
         if fr is None:
@@ -215,6 +216,13 @@ def match_frames(world, frames):
         lst = by_key.get(key)
         if not lst:
             unmatched.append(f)
-        else:
+        elif len(lst) == 1:
             pairs.append((f, lst[0]))
+        else:
+            # the same message submitted several times: the n-th frame with these bytes belongs to the n-th
+            # accepted call that submitted them (a surplus frame is pinned on the last one and shows as a duplicate)
+            acc = [c for c in lst if c["status"] in ("pending", "returned")] or lst
+            n = seen.get(key, 0)
+            seen[key] = n + 1
+            pairs.append((f, acc[min(n, len(acc) - 1)]))
     return pairs, unmatched
